@@ -1,4 +1,4 @@
-package storepbt
+package core
 
 import (
 	"context"
